@@ -79,11 +79,12 @@ type ContractSet struct {
 	ifaces map[string]*Contract
 	specs  map[string]*specFn
 	lemmas []*Lemma
+	axioms []*Lemma // facts that define abstract spec functions (assumed; listed in the evidence)
 	files  []string
 }
 
 var clauseKeywords = map[string]bool{"func": true, "interface": true, "spec": true, "abstract": true, "requires": true, "ensures": true,
-	"assigns": true, "loop": true, "decreases": true, "arith": true, "pure": true, "lemma": true, "trusted": true, "noframe": true, "invariant": true, "nonnil": true, "names": true, "ospec": true, "checks": true, "counted": true}
+	"assigns": true, "loop": true, "decreases": true, "arith": true, "pure": true, "lemma": true, "trusted": true, "noframe": true, "invariant": true, "nonnil": true, "names": true, "ospec": true, "checks": true, "counted": true, "axiom": true}
 
 func loadContracts(files []string) (*ContractSet, error) {
 	cs := &ContractSet{funcs: map[string]*Contract{}, ifaces: map[string]*Contract{}, specs: map[string]*specFn{}, invs: map[string][]*TypeInv{}, nonnil: map[string]bool{}}
@@ -150,12 +151,20 @@ func (cs *ContractSet) loadFile(path string) error {
 			ct.Line = c.line
 			ct.LoopInv = map[int][]*Expr{}
 			ct.IsIface = kw == "interface"
+			// a contract may be written in several places (one per property); the clauses accumulate
+			tbl := cs.funcs
 			if ct.IsIface {
-				cs.ifaces[ct.Key] = ct
-			} else {
-				cs.funcs[ct.Key] = ct
+				tbl = cs.ifaces
 			}
-			cur = ct
+			if old, ok := tbl[ct.Key]; ok {
+				if strings.Join(old.Params, ",") != strings.Join(ct.Params, ",") || strings.Join(old.Results, ",") != strings.Join(ct.Results, ",") {
+					return fail(fmt.Errorf("contract %s repeated with different parameter/result names", ct.Key))
+				}
+				cur = old
+			} else {
+				tbl[ct.Key] = ct
+				cur = ct
+			}
 		case "spec", "abstract", "ospec":
 			sf, err := parseSpec(rest, kw == "abstract")
 			if err != nil {
@@ -181,13 +190,17 @@ func (cs *ContractSet) loadFile(path string) error {
 		case "nonnil":
 			cs.nonnil[pkg+"::"+strings.TrimSpace(rest)] = true
 			cur = nil
-		case "lemma":
+		case "lemma", "axiom":
 			lm, err := parseLemma(rest)
 			if err != nil {
 				return fail(err)
 			}
 			lm.Pkg = pkg
-			cs.lemmas = append(cs.lemmas, lm)
+			if kw == "axiom" {
+				cs.axioms = append(cs.axioms, lm)
+			} else {
+				cs.lemmas = append(cs.lemmas, lm)
+			}
 			cur = nil
 		case "requires", "ensures", "decreases", "names", "checks":
 			if cur == nil {
